@@ -18,6 +18,14 @@ Line-protocol driver for C02.  The SAME op file is read by the native C driver
     pkt <64hex flag> <sport> <dport> <saddr> <daddr> <mac> <ubm 256hex | ->  -> k=<routeK> u=<matchU>[ NEQ]
     kpkt <same fields>                       kernel only (error paths)       -> k=<routeK>
     const <name>                                                             -> =<v> | =-
+    decode <48hex>                           compileRoutingMatch on a dumped rule image -> typed token | err
+    dkey <32hex>                             Ipv6ByteSliceToUint32Array                 -> w=<4 words>
+    sprog / stries                           the STAGED generation's typed program (a reload that does not cut over)
+    sysboot <counter>                        Sys := the dumped maps, the current program as serving generation
+    sysop reload|rebuild <start> <counter>   Sys.step; the observed ring start / counter are compared with the model's
+    sysop stage <stage> <start>              pend := commitUpTo stage … (the staged install stopped at <stage>)
+    sysop failed <stage> <startB> <startA'> <counter>   Sys.step (.failed …): stage, Close of the staged generation, rebuild
+    syscmp [pend]                            obsEqB (model's predicted maps) (dumped maps)   -> ok | differs …
 -/
 open DaeVerif DaeVerif.Proto DaeVerif.RuleScan DaeVerif.C12 DaeVerif.C01 DaeVerif.C02
 
@@ -28,6 +36,10 @@ structure St where
   start : Nat := 0
   count : Nat := 0
   maps : KMaps := KMaps.empty
+  skp : List KEntry := []
+  stries : List (List Prefix) := []
+  sys : Option Sys := none
+  pend : Option KMaps := none
 
 def parsePrefix? (tok : String) : Option Prefix := do
   match tok.splitOn "/" with
@@ -106,6 +118,53 @@ def outStr : Option Out → String
 
 def keyStr (k : LpmKey) : String :=
   s!"{k.prefixLen}:{bytesToHex ((List.range 16).map fun i => (k.data / 2 ^ (8 * (15 - i))) % 256)}"
+
+
+def entryTok (k : KEntry) : String :=
+  let pl := match k.cond with
+    | .ipSet i => toString i
+    | .srcIpSet i => toString i
+    | .macSet i => toString i
+    | .port lo hi => s!"{lo}-{hi}"
+    | .srcPort lo hi => s!"{lo}-{hi}"
+    | .l4Proto m => toString m
+    | .ipVersion m => toString m
+    | .processName bs => bytesToHex bs
+    | .dscp v => toString v
+    | _ => "-"
+  s!"{k.cond.mtype}:{bpfBool k.not}:{k.outbound}:{bpfBool k.must}:{k.mark}:{pl}"
+
+def parseStage? (tok : String) : Option Stage :=
+  match tok.splitOn ":" with
+  | ["lpm", l] => if l = "" then some (.lpm []) else ((l.splitOn ",").mapM (fun (x : String) => x.toNat?)).map Stage.lpm
+  | ["rules", n] => n.toNat?.map Stage.rules
+  | ["nolen"] => some .noLen
+  | ["done"] => some .done
+  | _ => none
+
+/-- where two map states differ in what `route()` can observe -/
+def obsDiff (a b : KMaps) : String :=
+  if a.activeLen != b.activeLen then s!"activeLen model={a.activeLen} kernel={b.activeLen}" else
+  let n := min a.activeLen MaxMatchSetLen
+  match (List.range n).find? (fun i => !sameReads (a.routing.getD i (zeros 24)) (b.routing.getD i (zeros 24))) with
+  | some i => s!"rule[{i}] model={bytesToHex (a.routing.getD i (zeros 24))} kernel={bytesToHex (b.routing.getD i (zeros 24))}"
+  | none =>
+    match (List.range n).find? (fun i =>
+        let x := a.routing.getD i (zeros 24)
+        isLpmType (msType x) && !sameSlot a b (msIndex .little x)) with
+    | some i =>
+      let slot := msIndex .little (a.routing.getD i (zeros 24))
+      let show_ (o : Option (List LpmKey)) := match o with | some ks => s!"{ks.length} keys" | none => "<empty>"
+      s!"lpm slot {slot} (named by rule[{i}]) model={show_ (a.lpmAt slot)} kernel={show_ (b.lpmAt slot)}"
+    | none =>
+      match (a.domain.map (·.1) ++ b.domain.map (·.1)).find? (fun k => a.domain.lookup k != b.domain.lookup k) with
+      | some k => s!"domain[{k}] model={(a.domain.lookup k).isSome} kernel={(b.domain.lookup k).isSome}"
+      | none => "?"
+
+def setDom (m : KMaps) (k : Nat) (v : Option (List Nat)) : KMaps :=
+  match v with
+  | some w => { m with domain := (k, w) :: m.domain.filter (·.1 != k) }
+  | none => { m with domain := m.domain.filter (·.1 != k) }
 
 def constTable : List (String × Nat) := [
   ("MatchType_DomainSet", MT_DomainSet), ("MatchType_IpSet", MT_IpSet), ("MatchType_SourceIpSet", MT_SourceIpSet),
@@ -201,13 +260,17 @@ def step (st : St) (line : String) : St × String :=
     match hexToNat? k, hexToBytes? bm with
     | some k, some b =>
       if b.length != 128 then (st, "bad-op") else
-      ({ st with maps := { st.maps with domain := (k, wordsLE b 32) :: st.maps.domain.filter (·.1 != k) } }, "ok")
+      ({ st with maps := setDom st.maps k (some (wordsLE b 32)),
+                 sys := st.sys.map (fun y => { y with maps := setDom y.maps k (some (wordsLE b 32)) }),
+                 pend := st.pend.map (fun y => setDom y k (some (wordsLE b 32))) }, "ok")
     | _, _ => (st, "bad-op")
   | ["domdel", k] =>
     match hexToNat? k with
     | some k =>
       if (st.maps.domain.lookup k).isSome then
-        ({ st with maps := { st.maps with domain := st.maps.domain.filter (·.1 != k) } }, "ok")
+        ({ st with maps := setDom st.maps k none,
+                   sys := st.sys.map (fun y => { y with maps := setDom y.maps k none }),
+                   pend := st.pend.map (fun y => setDom y k none) }, "ok")
       else (st, "err=-2")
     | none => (st, "bad-op")
   | "pkt" :: ts =>
@@ -221,6 +284,64 @@ def step (st : St) (line : String) : St × String :=
     match parsePkt? (ts ++ ["-"]) with
     | some (pk, _) => (st, s!"k={routeK .little st.maps pk}")
     | none => (st, "bad-op")
+  | ["decode", h] =>
+    match hexToBytes? h with
+    | some b => if b.length != 24 then (st, "bad-op") else
+      (st, match decodeGo .little b with | some k => entryTok k | none => "err")
+    | none => (st, "bad-op")
+  | ["dkey", h] =>
+    match hexToBytes? h with
+    | some b => if b.length != 16 then (st, "bad-op") else
+      (st, "w=" ++ ",".intercalate ((keyWords .little b).map toString) ++
+        (if keyImage .little (keyWords .little b) == b then "" else " IMAGE-DIFFERS"))
+    | none => (st, "bad-op")
+  | "sprog" :: n :: ts =>
+    match n.toNat?, ts.mapM parseEntry? with
+    | some n, some es => if es.length = n then ({ st with skp := es }, "ok") else (st, "bad-op")
+    | _, _ => (st, "bad-op")
+  | "stries" :: t :: ts =>
+    match t.toNat? with
+    | some t =>
+      match parseTries t ts with
+      | some tr => ({ st with stries := tr }, "ok")
+      | none => (st, "bad-op")
+    | none => (st, "bad-op")
+  | ["sysboot", c] =>
+    match c.toNat? with
+    | some c => ({ st with sys := some ⟨st.maps, c, ⟨st.start, st.kp, st.tries⟩, genSlots st.start st.tries.length⟩, pend := none }, "ok")
+    | none => (st, "bad-op")
+  | ["sysop", "stage", stage, a] =>
+    match st.sys, parseStage? stage, a.toNat? with
+    | some y, some sg, some obsStart =>
+      if y.counter = obsStart then ({ st with pend := some (commitUpTo sg obsStart st.skp st.stries y.maps) }, "ok")
+      else ({ st with sys := none, pend := none }, s!"ok ring-model-predicted={y.counter}")
+    | none, some _, some _ => (st, "ok ring-model-predicted=desynced")
+    | _, _, _ => (st, "bad-op")
+  | ["sysop", kind, a, b] =>
+    match st.sys, a.toNat?, b.toNat? with
+    | some y, some obsStart, some obsCounter =>
+      let y' := if kind = "reload" then y.step (.reload st.kp st.tries) else y.step .rebuild
+      if kind != "reload" && kind != "rebuild" then (st, "bad-op") else
+      if y'.live.start = obsStart && y'.counter = obsCounter then ({ st with sys := some y', pend := none }, "ok")
+      else ({ st with sys := none, pend := none }, s!"ok ring-model-predicted={y'.live.start},{y'.counter}")
+    | none, some _, some _ => (st, "ok ring-model-predicted=desynced")
+    | _, _, _ => (st, "bad-op")
+  | ["sysop", "failed", stage, a, b, c] =>
+    match st.sys, parseStage? stage, a.toNat?, b.toNat?, c.toNat? with
+    | some y, some sg, some obsB, some obsA, some obsCounter =>
+      let y' := y.step (.failed st.skp st.stries sg)
+      if y.counter = obsB && y'.live.start = obsA && y'.counter = obsCounter then ({ st with sys := some y', pend := none }, "ok")
+      else ({ st with sys := none, pend := none }, s!"ok ring-model-predicted={y.counter},{y'.live.start},{y'.counter}")
+    | none, some _, some _, some _, some _ => (st, "ok ring-model-predicted=desynced")
+    | _, _, _, _, _ => (st, "bad-op")
+  | ["syscmp"] =>
+    match st.sys with
+    | some y => (st, if obsEqB y.maps st.maps then "ok" else "differs: " ++ obsDiff y.maps st.maps)
+    | none => (st, "ok ring-model-predicted=desynced")
+  | ["syscmp", "pend"] =>
+    match st.pend with
+    | some m => (st, if obsEqB m st.maps then "ok" else "differs: " ++ obsDiff m st.maps)
+    | none => (st, "ok ring-model-predicted=desynced")
   | ["const", name] =>
     match constTable.lookup name with
     | some v => (st, s!"={v}")
